@@ -19,59 +19,63 @@ variable (AP : Prop) (EL : Lvl) (S : Item → Prop) (pf : Bytes → Option UInt6
 def FPost (st : FState) {α : Type} : α → FState → Prop :=
   fun _ st' => Inv EL S st'.p ∧ mu st'.p ≤ mu st.p
 
+/-- post-condition of `parseCallParams`: the parameter nodes -/
+def PPost (st : FState) : NodeList → FState → Prop :=
+  fun r st' => Inv EL S st'.p ∧ mu st'.p ≤ mu st.p ∧ NPL S r
+
 /-- post-condition of `itemList`: a well-shaped list; the token that ended it may be backed up -/
 def ListPost (untl : List ItemType) (st : FState) : Node → FState → Prop :=
-  fun r st' => listOK r ∧ InvW EL S st'.p ∧ st'.p.peekCount ≤ 1 ∧ mu st'.p + real (top st'.p) ≤ mu st.p ∧
+  fun r st' => (listOK r ∧ NP S r) ∧ InvW EL S st'.p ∧ st'.p.peekCount ≤ 1 ∧ mu st'.p + real (top st'.p) ≤ mu st.p ∧
     untl.contains (top st'.p).typ = true
 
 /-- post-condition of the command parsers: the node may become a child of a message body -/
 def NPost (st : FState) : Node → FState → Prop :=
-  fun r st' => childOK r ∧ Inv EL S st'.p ∧ mu st'.p ≤ mu st.p
+  fun r st' => (childOK r ∧ NP S r) ∧ Inv EL S st'.p ∧ mu st'.p ≤ mu st.p
 
 def BPost (st : FState) : Option Node → FState → Prop :=
-  fun r st' => (∀ n, r = some n → childOK n) ∧ Inv EL S st'.p ∧ mu st'.p ≤ mu st.p
+  fun r st' => (∀ n, r = some n → childOK n ∧ NP S n) ∧ Inv EL S st'.p ∧ mu st'.p ≤ mu st.p
 
 def SwPost (st : FState) : Node → FState → Prop :=
-  fun r st' => (∃ p v cs, r = .switch p v cs ∧ casesOK cs) ∧ Inv EL S st'.p ∧ mu st'.p ≤ mu st.p
+  fun r st' => ((∃ p v cs, r = .switch p v cs ∧ casesOK cs) ∧ NP S r) ∧ Inv EL S st'.p ∧ mu st'.p ≤ mu st.p
 
 def CasePost (st : FState) : Node → FState → Prop :=
-  fun r st' => (∃ p vs b, r = .switchCase p vs b ∧ listOK b) ∧ Inv EL S st'.p ∧ mu st'.p ≤ mu st.p
+  fun r st' => ((∃ p vs b, r = .switchCase p vs b ∧ listOK b) ∧ NP S r) ∧ Inv EL S st'.p ∧ mu st'.p ≤ mu st.p
 
 structure FileSpecs (fuel : Nat) : Prop where
-  itemListLoop : ∀ untl lpos nodes st, childrenOK nodes → Inv EL S st.p → mu st.p ≤ N → 8 * mu st.p + 20 ≤ fuel →
+  itemListLoop : ∀ untl lpos nodes st, (childrenOK nodes ∧ NPL S nodes ∧ ∀ p, lpos = some p → PosOK S p) → Inv EL S st.p → mu st.p ≤ N → 8 * mu st.p + 20 ≤ fuel →
     FSafe AP EL S (itemListLoop pf ef fuel untl lpos nodes) st (ListPost EL S untl st)
   textOrTag : ∀ token untl st, S token → InvW EL S st.p → st.p.peekCount ≤ 1 → top st.p = token →
     mu st.p + real token ≤ N → 8 * (mu st.p + real token) + 19 ≤ fuel →
-    FSafe AP EL S (textOrTag pf ef fuel token untl) st (fun r st' => (∀ n, r.1 = some n → childOK n) ∧
+    FSafe AP EL S (textOrTag pf ef fuel token untl) st (fun r st' => (∀ n, r.1 = some n → childOK n ∧ NP S n) ∧
       (if r.2 = true then InvW EL S st'.p else Inv EL S st'.p) ∧
       (r.2 = true → st'.p.peekCount ≤ 1 ∧ mu st'.p + real (top st'.p) ≤ mu st.p + real token ∧
         untl.contains (top st'.p).typ = true) ∧
       (r.2 = false → mu st'.p + 1 ≤ mu st.p + real token))
   beginTag : ∀ st, Inv EL S st.p → mu st.p ≤ N → 8 * mu st.p + 20 ≤ fuel →
     FSafe AP EL S (beginTag pf ef fuel) st (BPost EL S st)
-  parseTemplate : ∀ token st, Inv EL S st.p → mu st.p ≤ N → 8 * mu st.p + 20 ≤ fuel →
+  parseTemplate : ∀ token st, S token → Inv EL S st.p → mu st.p ≤ N → 8 * mu st.p + 20 ≤ fuel →
     FSafe AP EL S (parseTemplate pf ef fuel token) st (NPost EL S st)
-  parseLet : ∀ token st, Inv EL S st.p → mu st.p ≤ N → 8 * mu st.p + 20 ≤ fuel →
+  parseLet : ∀ token st, S token → Inv EL S st.p → mu st.p ≤ N → 8 * mu st.p + 20 ≤ fuel →
     FSafe AP EL S (parseLet pf ef fuel token) st (NPost EL S st)
-  ifLoop : ∀ pos isElse conds st, Inv EL S st.p → mu st.p ≤ N → 8 * mu st.p + 20 ≤ fuel →
+  ifLoop : ∀ pos isElse conds st, (PosOK S pos ∧ NPL S conds) → Inv EL S st.p → mu st.p ≤ N → 8 * mu st.p + 20 ≤ fuel →
     FSafe AP EL S (ifLoop pf ef fuel pos isElse conds) st (NPost EL S st)
-  parseFor : ∀ token st, Inv EL S st.p → mu st.p ≤ N → 8 * mu st.p + 20 ≤ fuel →
+  parseFor : ∀ token st, S token → Inv EL S st.p → mu st.p ≤ N → 8 * mu st.p + 20 ≤ fuel →
     FSafe AP EL S (parseFor pf ef fuel token) st (NPost EL S st)
-  parseSwitch : ∀ token endT st, midT endT = true → Inv EL S st.p → mu st.p ≤ N → 8 * mu st.p + 19 ≤ fuel →
+  parseSwitch : ∀ token endT st, midT endT = true → S token → Inv EL S st.p → mu st.p ≤ N → 8 * mu st.p + 19 ≤ fuel →
     FSafe AP EL S (parseSwitch pf ef fuel token endT) st (SwPost EL S st)
-  switchLoop : ∀ pos value endT cases st, midT endT = true → casesOK cases → Inv EL S st.p → mu st.p ≤ N → 8 * mu st.p + 20 ≤ fuel →
+  switchLoop : ∀ pos value endT cases st, midT endT = true → (casesOK cases ∧ NPL S cases ∧ PosOK S pos ∧ EP S value) → Inv EL S st.p → mu st.p ≤ N → 8 * mu st.p + 20 ≤ fuel →
     FSafe AP EL S (switchLoop pf ef fuel pos value endT cases) st (SwPost EL S st)
-  caseLoop : ∀ token values st, Inv EL S st.p → mu st.p ≤ N → 8 * mu st.p + 20 ≤ fuel →
+  caseLoop : ∀ token values st, (S token ∧ EPl S values) → Inv EL S st.p → mu st.p ≤ N → 8 * mu st.p + 20 ≤ fuel →
     FSafe AP EL S (caseLoop pf ef fuel token values) st (CasePost EL S st)
-  parseCall : ∀ token st, Inv EL S st.p → mu st.p ≤ N → 8 * mu st.p + 20 ≤ fuel →
+  parseCall : ∀ token st, S token → Inv EL S st.p → mu st.p ≤ N → 8 * mu st.p + 20 ≤ fuel →
     FSafe AP EL S (parseCall pf ef fuel token) st (NPost EL S st)
-  callParamsLoop : ∀ params st, Inv EL S st.p → mu st.p ≤ N → 8 * mu st.p + 20 ≤ fuel →
-    FSafe AP EL S (callParamsLoop pf ef fuel params) st (FPost EL S st)
+  callParamsLoop : ∀ params st, NPL S params → Inv EL S st.p → mu st.p ≤ N → 8 * mu st.p + 20 ≤ fuel →
+    FSafe AP EL S (callParamsLoop pf ef fuel params) st (PPost EL S st)
   orphanLoop : ∀ initial st, S initial → InvW EL S st.p → st.p.peekCount ≤ 1 → top st.p = initial →
     8 * (mu st.p + real initial) + 19 ≤ fuel →
     FSafe AP EL S (orphanLoop pf ef fuel initial) st (fun tok st' => S tok ∧ InvW EL S st'.p ∧ st'.p.peekCount ≤ 1 ∧
       top st'.p = tok ∧ mu st'.p + real tok ≤ mu st.p + real initial)
-  parseMsg : ∀ token st, Inv EL S st.p → mu st.p ≤ N → 8 * mu st.p + 20 ≤ fuel →
+  parseMsg : ∀ token st, S token → Inv EL S st.p → mu st.p ≤ N → 8 * mu st.p + 20 ≤ fuel →
     FSafe AP EL S (parseMsg pf ef fuel token) st (NPost EL S st)
   parsePlural : ∀ tok st, S tok → (EL.lex → valid tok) → Inv EL S st.p → mu st.p ≤ N → 8 * mu st.p + 20 ≤ fuel →
     FSafe AP EL S (parsePlural pf ef fuel tok) st (NPost EL S st)
@@ -82,12 +86,17 @@ variable (hlex : ∀ (str : Bytes) (is : List Item), Lex.lexAll str true = .item
 include hz hN hwf hlex
 
 theorem itemListLoop_ok {fuel : Nat} (ih : FileSpecs AP EL S pf ef N fuel) (untl : List ItemType) (lpos : Option Nat)
-    (nodes : NodeList) (st : FState) (hnodes : childrenOK nodes) (hi : Inv EL S st.p) (hn : mu st.p ≤ N) (hf : 8 * mu st.p + 20 ≤ fuel + 1) :
+    (nodes : NodeList) (st : FState) (hnodes : childrenOK nodes ∧ NPL S nodes ∧ ∀ p, lpos = some p → PosOK S p)
+    (hi : Inv EL S st.p) (hn : mu st.p ≤ N) (hf : 8 * mu st.p + 20 ≤ fuel + 1) :
     FSafe AP EL S (itemListLoop pf ef (fuel + 1) untl lpos nodes) st (ListPost EL S untl st) := by
   unfold FileParser.itemListLoop
   apply FSafe.bind
   apply fnext_safe hz hi
   intro token st1 hi1 hs1 hpc1 ht1 hm1 _
+  have hlp : PosOK S (lpos.getD token.pos) := by
+    cases lpos with
+    | none => exact posOK_of hs1
+    | some p => exact hnodes.2.2 p rfl
   simp only
   apply FSafe.bind
   apply (ih.textOrTag token untl st1 hs1 hi1 (by have := hi.1; omega) ht1 (by omega) (by omega)).mono
@@ -97,27 +106,35 @@ theorem itemListLoop_ok {fuel : Nat} (ih : FileSpecs AP EL S pf ef N fuel) (untl
   | true =>
     have := hh rfl
     simp only [if_true] at hi2 ⊢
-    exact FSafe.pure ⟨hnodes, hi2, this.1, by omega, this.2.2⟩
+    exact FSafe.pure ⟨⟨hnodes.1, by simp only [NP]; exact ⟨hlp, hnodes.2.1⟩⟩, hi2, this.1, by omega, this.2.2⟩
   | false =>
     have := hc rfl
     simp only [Bool.false_eq_true, if_false] at hi2 ⊢
     split
     · rename_i n
-      apply (ih.itemListLoop _ _ _ st2 (childrenOK_append _ _ _ rfl hnodes (show childrenOK (.cons n .nil) from ⟨hsh n rfl, trivial⟩)) hi2 (by omega) (by omega)).mono
+      have hn1 := hsh n rfl
+      apply (ih.itemListLoop _ _ _ st2 ⟨childrenOK_append _ _ _ rfl hnodes.1 (show childrenOK (.cons n .nil) from ⟨hn1.1, trivial⟩),
+        NPL_append _ _ hnodes.2.1 (by simp only [NPL]; exact ⟨hn1.2, trivial⟩), fun p h => by simp only [Option.some.injEq] at h; rw [← h]; exact hlp⟩
+        hi2 (by omega) (by omega)).mono
       intro r st3 ⟨l, a, b, c, d⟩
       exact ⟨l, a, b, by omega, d⟩
-    · apply (ih.itemListLoop _ _ _ st2 hnodes hi2 (by omega) (by omega)).mono
+    · apply (ih.itemListLoop _ _ _ st2 ⟨hnodes.1, hnodes.2.1, fun p h => by simp only [Option.some.injEq] at h; rw [← h]; exact hlp⟩ hi2 (by omega) (by omega)).mono
       intro r st3 ⟨l, a, b, c, d⟩
       exact ⟨l, a, b, by omega, d⟩
 
 /-- the top-level list: its first `next` is the first read of the channel -/
 theorem itemListLoop_ok0 {fuel : Nat} (ih : FileSpecs AP EL S pf ef N fuel) (untl : List ItemType) (lpos : Option Nat)
-    (nodes : NodeList) (st : FState) (hnodes : childrenOK nodes) (hi : Inv0 EL S st.p) (hn : mu st.p ≤ N) (hf : 8 * mu st.p + 20 ≤ fuel + 1) :
+    (nodes : NodeList) (st : FState) (hnodes : childrenOK nodes ∧ NPL S nodes ∧ ∀ p, lpos = some p → PosOK S p)
+    (hi : Inv0 EL S st.p) (hn : mu st.p ≤ N) (hf : 8 * mu st.p + 20 ≤ fuel + 1) :
     FSafe AP EL S (itemListLoop pf ef (fuel + 1) untl lpos nodes) st (ListPost EL S untl st) := by
   unfold FileParser.itemListLoop
   apply FSafe.bind
   apply fnext_safe0 hz hi
   intro token st1 hi1 hs1 hpc1 ht1 hm1 _
+  have hlp : PosOK S (lpos.getD token.pos) := by
+    cases lpos with
+    | none => exact posOK_of hs1
+    | some p => exact hnodes.2.2 p rfl
   simp only
   apply FSafe.bind
   apply (ih.textOrTag token untl st1 hs1 hi1 (by have := hi.1; omega) ht1 (by omega) (by omega)).mono
@@ -127,23 +144,26 @@ theorem itemListLoop_ok0 {fuel : Nat} (ih : FileSpecs AP EL S pf ef N fuel) (unt
   | true =>
     have := hh rfl
     simp only [if_true] at hi2 ⊢
-    exact FSafe.pure ⟨hnodes, hi2, this.1, by omega, this.2.2⟩
+    exact FSafe.pure ⟨⟨hnodes.1, by simp only [NP]; exact ⟨hlp, hnodes.2.1⟩⟩, hi2, this.1, by omega, this.2.2⟩
   | false =>
     have := hc rfl
     simp only [Bool.false_eq_true, if_false] at hi2 ⊢
     split
     · rename_i n
-      apply (ih.itemListLoop _ _ _ st2 (childrenOK_append _ _ _ rfl hnodes (show childrenOK (.cons n .nil) from ⟨hsh n rfl, trivial⟩)) hi2 (by omega) (by omega)).mono
+      have hn1 := hsh n rfl
+      apply (ih.itemListLoop _ _ _ st2 ⟨childrenOK_append _ _ _ rfl hnodes.1 (show childrenOK (.cons n .nil) from ⟨hn1.1, trivial⟩),
+        NPL_append _ _ hnodes.2.1 (by simp only [NPL]; exact ⟨hn1.2, trivial⟩), fun p h => by simp only [Option.some.injEq] at h; rw [← h]; exact hlp⟩
+        hi2 (by omega) (by omega)).mono
       intro r st3 ⟨l, a, b, c, d⟩
       exact ⟨l, a, b, by omega, d⟩
-    · apply (ih.itemListLoop _ _ _ st2 hnodes hi2 (by omega) (by omega)).mono
+    · apply (ih.itemListLoop _ _ _ st2 ⟨hnodes.1, hnodes.2.1, fun p h => by simp only [Option.some.injEq] at h; rw [← h]; exact hlp⟩ hi2 (by omega) (by omega)).mono
       intro r st3 ⟨l, a, b, c, d⟩
       exact ⟨l, a, b, by omega, d⟩
 
 theorem textOrTag_ok {fuel : Nat} (ih : FileSpecs AP EL S pf ef N fuel) (token : Item) (untl : List ItemType)
     (st : FState) (hs : S token) (hi : InvW EL S st.p) (hpc : st.p.peekCount ≤ 1) (htop : top st.p = token)
     (hn : mu st.p + real token ≤ N) (hf : 8 * (mu st.p + real token) + 19 ≤ fuel + 1) :
-    FSafe AP EL S (textOrTag pf ef (fuel + 1) token untl) st (fun r st' => (∀ n, r.1 = some n → childOK n) ∧
+    FSafe AP EL S (textOrTag pf ef (fuel + 1) token untl) st (fun r st' => (∀ n, r.1 = some n → childOK n ∧ NP S n) ∧
       (if r.2 = true then InvW EL S st'.p else Inv EL S st'.p) ∧
       (r.2 = true → st'.p.peekCount ≤ 1 ∧ mu st'.p + real (top st'.p) ≤ mu st.p + real token ∧
         untl.contains (top st'.p).typ = true) ∧
@@ -184,7 +204,7 @@ theorem textOrTag_ok {fuel : Nat} (ih : FileSpecs AP EL S pf ef N fuel) (token :
           intro tv
           split
           · exact FSafe.pure ⟨fun n h => by simp at h, by simpa using hi5, fun h => by simp at h, fun _ => by omega⟩
-          · exact FSafe.pure ⟨fun n h => by simp only [Option.some.injEq] at h; subst h; trivial, by simpa using hi5, fun h => by simp at h, fun _ => by omega⟩
+          · exact FSafe.pure ⟨fun n h => by simp only [Option.some.injEq] at h; subst h; exact ⟨trivial, by simp only [NP]; exact posOK_of hs1⟩, by simpa using hi5, fun h => by simp at h, fun _ => by omega⟩
         split
         · rename_i hc
           have hr := real_of_beq hc (by decide)
@@ -196,7 +216,7 @@ theorem textOrTag_ok {fuel : Nat} (ih : FileSpecs AP EL S pf ef N fuel) (token :
         · rename_i hc
           have hr := real_of_beq hc (by decide)
           apply FSafe.bind
-          apply soyDocLoop_safe hz _ fuel [] st3 _ hi3 (by omega)
+          apply soyDocLoop_safe hz _ fuel [] st3 _ (posOK_of hs1) hi3 (by omega)
           intro n st4 hc4 hi4 hm4
           exact FSafe.pure ⟨fun n' h => by simp only [Option.some.injEq] at h; subst h; exact hc4, by simpa using hi4, fun h => by simp at h, fun _ => by omega⟩
         · exact funexpected_safe' hs1 (fun hl => ht1 ▸ hi1.valid_top hl)
@@ -250,22 +270,22 @@ theorem beginTag_ok {fuel : Nat} (ih : FileSpecs AP EL S pf ef N fuel) (st : FSt
   · -- namespace
     rename_i ht; have hr := real_of_eq ht (by decide)
     apply FSafe.bind
-    apply parseNamespace_safe hz fuel token st1 _ (upw% hi1) (by omega)
+    apply parseNamespace_safe hz fuel token st1 _ hs1 (upw% hi1) (by omega)
     intro n st2 hc2 hi2 hm2
     exact FSafe.pure ⟨fun n' h => by cases h; exact hc2, hi2, by omega⟩
   · rename_i ht; have hr := real_of_eq ht (by decide)
     apply FSafe.bind
-    apply (ih.parseTemplate token st1 (upw% hi1) (by omega) (by omega)).mono
+    apply (ih.parseTemplate token st1 hs1 (upw% hi1) (by omega) (by omega)).mono
     intro n st2 ⟨hc2, hi2, hm2⟩
-    exact FSafe.pure ⟨fun n' h => by cases h; first | exact hc2 | (obtain ⟨_, _, _, rfl, _⟩ := hc2; trivial), hi2, by omega⟩
+    exact FSafe.pure ⟨fun n' h => by cases h; first | exact hc2 | exact ⟨by obtain ⟨_, _, _, rfl, _⟩ := hc2.1; trivial, hc2.2⟩, hi2, by omega⟩
   · rename_i ht; have hr := real_of_eq ht (by decide)
     apply FSafe.bind
-    apply parseHeaderParam_safe hz pf ef N hN hwf hlex token st1 _ (upw% hi1) (by omega)
+    apply parseHeaderParam_safe hz pf ef N hN hwf hlex token st1 _ hs1 (upw% hi1) (by omega)
     intro n st2 hc2 hi2 hm2
     exact FSafe.pure ⟨fun n' h => by cases h; exact hc2, hi2, by omega⟩
   · rename_i ht; have hr := real_of_eq ht (by decide)
     apply FSafe.bind
-    apply parseHeaderParam_safe hz pf ef N hN hwf hlex token st1 _ (upw% hi1) (by omega)
+    apply parseHeaderParam_safe hz pf ef N hN hwf hlex token st1 _ hs1 (upw% hi1) (by omega)
     intro n st2 hc2 hi2 hm2
     exact FSafe.pure ⟨fun n' h => by cases h; exact hc2, hi2, by omega⟩
   · -- if
@@ -273,58 +293,58 @@ theorem beginTag_ok {fuel : Nat} (ih : FileSpecs AP EL S pf ef N fuel) (st : FSt
     apply FSafe.bind
     apply hnot
     apply FSafe.bind
-    apply (ih.ifLoop _ _ _ st1 (upw% hi1) (by omega) (by omega)).mono
+    apply (ih.ifLoop _ _ _ st1 ⟨posOK_of hs1, NPL_nil⟩ (upw% hi1) (by omega) (by omega)).mono
     intro n st2 ⟨hc2, hi2, hm2⟩
-    exact FSafe.pure ⟨fun n' h => by cases h; first | exact hc2 | (obtain ⟨_, _, _, rfl, _⟩ := hc2; trivial), hi2, by omega⟩
+    exact FSafe.pure ⟨fun n' h => by cases h; first | exact hc2 | exact ⟨by obtain ⟨_, _, _, rfl, _⟩ := hc2.1; trivial, hc2.2⟩, hi2, by omega⟩
   · -- msg
     rename_i ht; have hr := real_of_eq ht (by decide)
     apply FSafe.bind
     apply hnot
     apply FSafe.bind
-    apply (ih.parseMsg token st1 (upw% hi1) (by omega) (by omega)).mono
+    apply (ih.parseMsg token st1 hs1 (upw% hi1) (by omega) (by omega)).mono
     intro n st2 ⟨hc2, hi2, hm2⟩
-    exact FSafe.pure ⟨fun n' h => by cases h; first | exact hc2 | (obtain ⟨_, _, _, rfl, _⟩ := hc2; trivial), hi2, by omega⟩
+    exact FSafe.pure ⟨fun n' h => by cases h; first | exact hc2 | exact ⟨by obtain ⟨_, _, _, rfl, _⟩ := hc2.1; trivial, hc2.2⟩, hi2, by omega⟩
   · -- plural
     rename_i ht; have hr := real_of_eq ht (by decide)
     apply FSafe.bind
     apply (ih.parsePlural token st1 hs1 (fun _ => real_valid hr) (upw% hi1) (by omega) (by omega)).mono
     intro n st2 ⟨hc2, hi2, hm2⟩
-    exact FSafe.pure ⟨fun n' h => by cases h; first | exact hc2 | (obtain ⟨_, _, _, rfl, _⟩ := hc2; trivial), hi2, by omega⟩
+    exact FSafe.pure ⟨fun n' h => by cases h; first | exact hc2 | exact ⟨by obtain ⟨_, _, _, rfl, _⟩ := hc2.1; trivial, hc2.2⟩, hi2, by omega⟩
   · rename_i ht; have hr := real_of_eq ht (by decide)
     apply FSafe.bind
     apply hnot
     apply FSafe.bind
-    apply (ih.parseFor token st1 (upw% hi1) (by omega) (by omega)).mono
+    apply (ih.parseFor token st1 hs1 (upw% hi1) (by omega) (by omega)).mono
     intro n st2 ⟨hc2, hi2, hm2⟩
-    exact FSafe.pure ⟨fun n' h => by cases h; first | exact hc2 | (obtain ⟨_, _, _, rfl, _⟩ := hc2; trivial), hi2, by omega⟩
+    exact FSafe.pure ⟨fun n' h => by cases h; first | exact hc2 | exact ⟨by obtain ⟨_, _, _, rfl, _⟩ := hc2.1; trivial, hc2.2⟩, hi2, by omega⟩
   · rename_i ht; have hr := real_of_eq ht (by decide)
     apply FSafe.bind
     apply hnot
     apply FSafe.bind
-    apply (ih.parseFor token st1 (upw% hi1) (by omega) (by omega)).mono
+    apply (ih.parseFor token st1 hs1 (upw% hi1) (by omega) (by omega)).mono
     intro n st2 ⟨hc2, hi2, hm2⟩
-    exact FSafe.pure ⟨fun n' h => by cases h; first | exact hc2 | (obtain ⟨_, _, _, rfl, _⟩ := hc2; trivial), hi2, by omega⟩
+    exact FSafe.pure ⟨fun n' h => by cases h; first | exact hc2 | exact ⟨by obtain ⟨_, _, _, rfl, _⟩ := hc2.1; trivial, hc2.2⟩, hi2, by omega⟩
   · -- switch
     rename_i ht; have hr := real_of_eq ht (by decide)
     apply FSafe.bind
     apply hnot
     apply FSafe.bind
-    apply (ih.parseSwitch token _ st1 (by decide) (upw% hi1) (by omega) (by omega)).mono
+    apply (ih.parseSwitch token _ st1 (by decide) hs1 (upw% hi1) (by omega) (by omega)).mono
     intro n st2 ⟨hc2, hi2, hm2⟩
-    exact FSafe.pure ⟨fun n' h => by cases h; first | exact hc2 | (obtain ⟨_, _, _, rfl, _⟩ := hc2; trivial), hi2, by omega⟩
+    exact FSafe.pure ⟨fun n' h => by cases h; first | exact hc2 | exact ⟨by obtain ⟨_, _, _, rfl, _⟩ := hc2.1; trivial, hc2.2⟩, hi2, by omega⟩
   · -- call
     rename_i ht; have hr := real_of_eq ht (by decide)
     apply FSafe.bind
-    apply (ih.parseCall token st1 (upw% hi1) (by omega) (by omega)).mono
+    apply (ih.parseCall token st1 hs1 (upw% hi1) (by omega) (by omega)).mono
     intro n st2 ⟨hc2, hi2, hm2⟩
-    exact FSafe.pure ⟨fun n' h => by cases h; first | exact hc2 | (obtain ⟨_, _, _, rfl, _⟩ := hc2; trivial), hi2, by omega⟩
+    exact FSafe.pure ⟨fun n' h => by cases h; first | exact hc2 | exact ⟨by obtain ⟨_, _, _, rfl, _⟩ := hc2.1; trivial, hc2.2⟩, hi2, by omega⟩
   · -- literal
     apply FSafe.bind
     apply fexpect_safe hz (upw% hi1) (by decide)
     intro t2 st2 hi2 _ _ _ hm2 _
     apply FSafe.bind
     apply fexpect_safe hz hi2 (by decide)
-    intro t3 st3 hi3 _ _ _ hm3 _
+    intro t3 st3 hi3 hs3 _ _ hm3 _
     apply FSafe.bind
     apply fexpect_safe hz hi3 (by decide)
     intro t4 st4 hi4 _ _ _ hm4 _
@@ -334,10 +354,10 @@ theorem beginTag_ok {fuel : Nat} (ih : FileSpecs AP EL S pf ef N fuel) (st : FSt
     apply FSafe.bind
     apply fexpect_safe hz hi5 (by decide)
     intro t6 st6 hi6 _ _ _ hm6 _
-    exact FSafe.pure ⟨fun n' h => by cases h; trivial, hi6, by omega⟩
+    exact FSafe.pure ⟨fun n' h => by cases h; exact ⟨trivial, by np⟩, hi6, by omega⟩
   · -- css
     apply FSafe.bind
-    apply parseCss_safe hz pf hlex token st1 _ (upw% hi1)
+    apply parseCss_safe hz pf hlex token st1 _ hs1 (upw% hi1)
     intro n st2 hc2 hi2 hm2
     exact FSafe.pure ⟨fun n' h => by cases h; exact hc2, hi2, by omega⟩
   · -- log
@@ -346,23 +366,23 @@ theorem beginTag_ok {fuel : Nat} (ih : FileSpecs AP EL S pf ef N fuel) (st : FSt
     apply fexpect_safe hz (upw% hi1) (by decide)
     intro t2 st2 hi2 _ _ _ hm2 _
     apply FSafe.bind
-    apply (ih.itemListLoop _ _ _ st2 childrenOK_nil hi2 (by omega) (by omega)).mono
-    intro body st3 ⟨_, hi3, _, hm3, hu3⟩
+    apply (ih.itemListLoop _ _ _ st2 ⟨childrenOK_nil, NPL_nil, fun p h => by cases h⟩ hi2 (by omega) (by omega)).mono
+    intro body st3 ⟨⟨_, hnp3⟩, hi3, _, hm3, hu3⟩
     apply FSafe.bind
     apply fexpect_safe hz (upw% hi3) (by decide)
     intro t4 st4 hi4 _ _ _ hm4 _
-    exact FSafe.pure ⟨fun n' h => by cases h; trivial, hi4, by omega⟩
+    exact FSafe.pure ⟨fun n' h => by cases h; exact ⟨trivial, by np⟩, hi4, by omega⟩
   · -- debugger
     apply FSafe.bind
     apply fexpect_safe hz (upw% hi1) (by decide)
     intro t2 st2 hi2 _ _ _ hm2 _
-    exact FSafe.pure ⟨fun n' h => by cases h; trivial, hi2, by omega⟩
+    exact FSafe.pure ⟨fun n' h => by cases h; exact ⟨trivial, by np⟩, hi2, by omega⟩
   · -- let
     rename_i ht; have hr := real_of_eq ht (by decide)
     apply FSafe.bind
-    apply (ih.parseLet token st1 (upw% hi1) (by omega) (by omega)).mono
+    apply (ih.parseLet token st1 hs1 (upw% hi1) (by omega) (by omega)).mono
     intro n st2 ⟨hc2, hi2, hm2⟩
-    exact FSafe.pure ⟨fun n' h => by cases h; first | exact hc2 | (obtain ⟨_, _, _, rfl, _⟩ := hc2; trivial), hi2, by omega⟩
+    exact FSafe.pure ⟨fun n' h => by cases h; first | exact hc2 | exact ⟨by obtain ⟨_, _, _, rfl, _⟩ := hc2.1; trivial, hc2.2⟩, hi2, by omega⟩
   · -- alias
     apply FSafe.bind
     apply parseAlias_safe hz hwf fuel st1 _ (upw% hi1) (by omega)
@@ -373,26 +393,26 @@ theorem beginTag_ok {fuel : Nat} (ih : FileSpecs AP EL S pf ef N fuel) (st : FSt
       (apply FSafe.bind
        apply fexpect_safe hz (upw% hi1) (by decide)
        intro t2 st2 hi2 _ _ _ hm2 _
-       exact FSafe.pure ⟨fun n' h => by cases h; trivial, hi2, by omega⟩)
+       exact FSafe.pure ⟨fun n' h => by cases h; exact ⟨trivial, by np⟩, hi2, by omega⟩)
     | -- implicit print
       (apply FSafe.bind
        apply fbackup_safe hi1 (by have := hi.1; omega)
        intro st2 hi2 hm2 _
        rw [ht1] at hm2
        apply FSafe.bind
-       apply parsePrint_safe hz pf ef N hN hwf hlex fuel token st2 _ hi2 (by omega) (by omega)
+       apply parsePrint_safe hz pf ef N hN hwf hlex fuel token st2 _ ⟨hi2, hs1⟩ (by omega) (by omega)
        intro n st3 hc3 hi3 hm3
        exact FSafe.pure ⟨fun n' h => by cases h; exact hc3, hi3, by omega⟩)
     | -- print
       (apply FSafe.bind
-       apply parsePrint_safe hz pf ef N hN hwf hlex fuel token st1 _ (upw% hi1) (by omega) (by omega)
+       apply parsePrint_safe hz pf ef N hN hwf hlex fuel token st1 _ ⟨(upw% hi1), hs1⟩ (by omega) (by omega)
        intro n st2 hc2 hi2 hm2
        exact FSafe.pure ⟨fun n' h => by cases h; exact hc2, hi2, by omega⟩)
     | exact funexpected_safe hi1 hs1
 
 
 theorem parseTemplate_ok {fuel : Nat} (ih : FileSpecs AP EL S pf ef N fuel) (token : Item) (st : FState)
-    (hi : Inv EL S st.p) (hn : mu st.p ≤ N) (hf : 8 * mu st.p + 20 ≤ fuel + 1) :
+    (hst : S token) (hi : Inv EL S st.p) (hn : mu st.p ≤ N) (hf : 8 * mu st.p + 20 ≤ fuel + 1) :
     FSafe AP EL S (parseTemplate pf ef (fuel + 1) token) st (NPost EL S st) := by
   unfold FileParser.parseTemplate
   apply FSafe.bind
@@ -412,17 +432,17 @@ theorem parseTemplate_ok {fuel : Nat} (ih : FileSpecs AP EL S pf ef N fuel) (tok
   apply fexpect_safe hz hi2 (by decide)
   intro rd st3 hi3 _ _ _ hm3 _
   apply FSafe.bind
-  apply (ih.itemListLoop _ _ _ st3 childrenOK_nil hi3 (by omega) (by omega)).mono
-  intro body st4 ⟨hlst4, hi4, _, hm4, hu4⟩
+  apply (ih.itemListLoop _ _ _ st3 ⟨childrenOK_nil, NPL_nil, fun p h => by cases h⟩ hi3 (by omega) (by omega)).mono
+  intro body st4 ⟨⟨hlst4, hnp4⟩, hi4, _, hm4, hu4⟩
   apply FSafe.bind
   apply fget_safe
   apply FSafe.bind
   apply fexpect_safe hz (upw% hi4) (by decide)
   intro rd2 st5 hi5 _ _ _ hm5 _
-  exact FSafe.pure ⟨trivial, hi5, by omega⟩
+  exact FSafe.pure ⟨⟨trivial, by np⟩, hi5, by omega⟩
 
 theorem parseLet_ok {fuel : Nat} (ih : FileSpecs AP EL S pf ef N fuel) (token : Item) (st : FState)
-    (hi : Inv EL S st.p) (hn : mu st.p ≤ N) (hf : 8 * mu st.p + 20 ≤ fuel + 1) :
+    (hst : S token) (hi : Inv EL S st.p) (hn : mu st.p ≤ N) (hf : 8 * mu st.p + 20 ≤ fuel + 1) :
     FSafe AP EL S (parseLet pf ef (fuel + 1) token) st (NPost EL S st) := by
   unfold FileParser.parseLet
   apply FSafe.bind
@@ -447,7 +467,7 @@ theorem parseLet_ok {fuel : Nat} (ih : FileSpecs AP EL S pf ef N fuel) (token : 
     apply FSafe.bind
     apply fexpect_safe hz hi4 (by decide)
     intro rd st5 hi5 _ _ _ hm5 _
-    exact FSafe.pure ⟨trivial, hi5, by omega⟩
+    exact FSafe.pure ⟨⟨trivial, by np⟩, hi5, by omega⟩
   · apply FSafe.bind
     apply parseAttrs_safe hz _ fuel [] st2 _ hi2 (by omega)
     intro attrs st3 hi3 hm3
@@ -459,34 +479,35 @@ theorem parseLet_ok {fuel : Nat} (ih : FileSpecs AP EL S pf ef N fuel) (token : 
       apply ftail1_safe (val_ne1 (hwf name hsn) (Or.inl hty))
       intro _ nm _
       apply FSafe.bind
-      apply (ih.itemListLoop _ _ _ st4 childrenOK_nil (upw% hi4) (by omega) (by omega)).mono
-      intro body st5 ⟨hlst5, hi5, _, hm5, hu5⟩
+      apply (ih.itemListLoop _ _ _ st4 ⟨childrenOK_nil, NPL_nil, fun p h => by cases h⟩ (upw% hi4) (by omega) (by omega)).mono
+      intro body st5 ⟨⟨hlst5, hnp5⟩, hi5, _, hm5, hu5⟩
       apply FSafe.bind
       apply fexpect_safe hz (upw% hi5) (by decide)
       intro rd st6 hi6 _ _ _ hm6 _
-      exact FSafe.pure ⟨trivial, hi6, by omega⟩
+      exact FSafe.pure ⟨⟨trivial, by np⟩, hi6, by omega⟩
     · exact funexpected_safe hi4 hs4
 
 theorem ifLoop_ok {fuel : Nat} (ih : FileSpecs AP EL S pf ef N fuel) (pos : Nat) (isElse : Bool) (conds : NodeList)
-    (st : FState) (hi : Inv EL S st.p) (hn : mu st.p ≤ N) (hf : 8 * mu st.p + 20 ≤ fuel + 1) :
+    (st : FState) (hpre : PosOK S pos ∧ NPL S conds) (hi : Inv EL S st.p) (hn : mu st.p ≤ N) (hf : 8 * mu st.p + 20 ≤ fuel + 1) :
     FSafe AP EL S (ifLoop pf ef (fuel + 1) pos isElse conds) st (NPost EL S st) := by
+  obtain ⟨hpos, hconds⟩ := hpre
   unfold FileParser.ifLoop
   apply FSafe.bind
-  apply FSafe.mono (Q := fun _ st' => Inv EL S st'.p ∧ mu st'.p ≤ mu st.p)
+  apply FSafe.mono (Q := fun ce st' => Inv EL S st'.p ∧ mu st'.p ≤ mu st.p ∧ EPo S ce)
   · split
     · apply FSafe.bind
       apply parseExpr0_safe hz pf ef N hN hwf hi hn
       intro e st1 hi1 hm1
-      exact FSafe.pure ⟨hi1, by omega⟩
-    · exact FSafe.pure ⟨hi, Nat.le_refl _⟩
-  · intro ce st1 ⟨hi1, hm1⟩
+      exact FSafe.pure ⟨hi1, by omega, hm1.2⟩
+    · exact FSafe.pure ⟨hi, Nat.le_refl _, trivial⟩
+  · intro ce st1 ⟨hi1, hm1, hce⟩
     apply FSafe.bind
     apply fexpect_safe hz hi1 (by decide)
     intro rd st2 hi2 _ _ _ hm2 hty
     have hr := real_of_eq hty (by decide)
     apply FSafe.bind
-    apply (ih.itemListLoop _ _ _ st2 childrenOK_nil hi2 (by omega) (by omega)).mono
-    intro body st3 ⟨hlst3, hi3, hpc3, hm3, hu3⟩
+    apply (ih.itemListLoop _ _ _ st2 ⟨childrenOK_nil, NPL_nil, fun p h => by cases h⟩ hi2 (by omega) (by omega)).mono
+    intro body st3 ⟨⟨hlst3, hnp3⟩, hi3, hpc3, hm3, hu3⟩
     simp only
     apply FSafe.bind
     apply fbackup_safe hi3 hpc3
@@ -495,25 +516,27 @@ theorem ifLoop_ok {fuel : Nat} (ih : FileSpecs AP EL S pf ef N fuel) (pos : Nat)
     apply fnext_safe hz hi4
     intro t st5 hi5 hs5 _ ht5 hm5 he5
     have hrt : real t = 1 := by rw [he5 _ hd4]; exact real_of_contains hu3 (by decide)
+    have hconds' : NPL S (conds.append (.cons (.ifCond pos ce body) .nil)) :=
+      NPL_append _ _ hconds (by simp only [NPL, NP]; exact ⟨⟨hpos, hce, hnp3⟩, trivial⟩)
     split
-    · apply (ih.ifLoop _ _ _ st5 (upw% hi5) (by omega) (by omega)).mono
+    · apply (ih.ifLoop _ _ _ st5 ⟨hpos, hconds'⟩ (upw% hi5) (by omega) (by omega)).mono
       intro r st6 ⟨c, a, b⟩
       exact ⟨c, a, by omega⟩
     split
-    · apply (ih.ifLoop _ _ _ st5 (upw% hi5) (by omega) (by omega)).mono
+    · apply (ih.ifLoop _ _ _ st5 ⟨hpos, hconds'⟩ (upw% hi5) (by omega) (by omega)).mono
       intro r st6 ⟨c, a, b⟩
       exact ⟨c, a, by omega⟩
     split
     · apply FSafe.bind
       apply fexpect_safe hz (upw% hi5) (by decide)
       intro rd2 st6 hi6 _ _ _ hm6 _
-      exact FSafe.pure ⟨trivial, hi6, by omega⟩
-    · apply (ih.ifLoop _ _ _ st5 (upw% hi5) (by omega) (by omega)).mono
+      exact FSafe.pure ⟨⟨trivial, by np⟩, hi6, by omega⟩
+    · apply (ih.ifLoop _ _ _ st5 ⟨hpos, hconds'⟩ (upw% hi5) (by omega) (by omega)).mono
       intro r st6 ⟨c, a, b⟩
       exact ⟨c, a, by omega⟩
 
 theorem parseFor_ok {fuel : Nat} (ih : FileSpecs AP EL S pf ef N fuel) (token : Item) (st : FState)
-    (hi : Inv EL S st.p) (hn : mu st.p ≤ N) (hf : 8 * mu st.p + 20 ≤ fuel + 1) :
+    (hst : S token) (hi : Inv EL S st.p) (hn : mu st.p ≤ N) (hf : 8 * mu st.p + 20 ≤ fuel + 1) :
     FSafe AP EL S (parseFor pf ef (fuel + 1) token) st (NPost EL S st) := by
   unfold FileParser.parseFor
   apply FSafe.bind
@@ -532,8 +555,8 @@ theorem parseFor_ok {fuel : Nat} (ih : FileSpecs AP EL S pf ef N fuel) (token : 
     apply fexpect_safe hz hi3 (by decide)
     intro rd st4 hi4 _ _ _ hm4 _
     apply FSafe.bind
-    apply (ih.itemListLoop _ _ _ st4 childrenOK_nil hi4 (by omega) (by omega)).mono
-    intro body st5 ⟨hlst5, hi5, hpc5, hm5, hu5⟩
+    apply (ih.itemListLoop _ _ _ st4 ⟨childrenOK_nil, NPL_nil, fun p h => by cases h⟩ hi4 (by omega) (by omega)).mono
+    intro body st5 ⟨⟨hlst5, hnp5⟩, hi5, hpc5, hm5, hu5⟩
     apply FSafe.bind
     apply fbackup_safe hi5 hpc5
     intro st6 hi6 hm6 hd6
@@ -542,27 +565,27 @@ theorem parseFor_ok {fuel : Nat} (ih : FileSpecs AP EL S pf ef N fuel) (token : 
     intro t st7 hi7 hs7 _ ht7 hm7 he7
     have hrt : real t = 1 := by rw [he7 _ hd6]; exact real_of_contains hu5 (by decide)
     apply FSafe.bind
-    apply FSafe.mono (Q := fun _ st' => Inv EL S st'.p ∧ mu st'.p ≤ mu st7.p)
+    apply FSafe.mono (Q := fun ie st' => Inv EL S st'.p ∧ mu st'.p ≤ mu st7.p ∧ NPL S ie)
     · split
       · apply FSafe.bind
         apply fexpect_safe hz (upw% hi7) (by decide)
         intro rd2 st8 hi8 _ _ _ hm8 _
         apply FSafe.bind
-        apply (ih.itemListLoop _ _ _ st8 childrenOK_nil hi8 (by omega) (by omega)).mono
-        intro b st9 ⟨hlst9, hi9, _, hm9, hu9⟩
-        exact FSafe.pure ⟨(upw% hi9), by omega⟩
-      · exact FSafe.pure ⟨(upw% hi7), Nat.le_refl _⟩
-    · intro ie st8 ⟨hi8, hm8⟩
+        apply (ih.itemListLoop _ _ _ st8 ⟨childrenOK_nil, NPL_nil, fun p h => by cases h⟩ hi8 (by omega) (by omega)).mono
+        intro b st9 ⟨⟨hlst9, hnp9⟩, hi9, _, hm9, hu9⟩
+        exact FSafe.pure ⟨(upw% hi9), by omega, by simp only [NPL]; exact ⟨hnp9, trivial⟩⟩
+      · exact FSafe.pure ⟨(upw% hi7), Nat.le_refl _, NPL_nil⟩
+    · intro ie st8 ⟨hi8, hm8, hie⟩
       apply FSafe.bind
       apply fexpect_safe hz hi8 (by decide)
       intro rd3 st9 hi9 _ _ _ hm9 _
       apply FSafe.bind
       apply ftail1_safe (val_ne1 (hwf v hsv) (Or.inl hty))
       intro _ vv _
-      exact FSafe.pure ⟨trivial, hi9, by omega⟩
+      exact FSafe.pure ⟨⟨trivial, by np⟩, hi9, by omega⟩
 
 theorem parseSwitch_ok {fuel : Nat} (ih : FileSpecs AP EL S pf ef N fuel) (token : Item) (endT : ItemType)
-    (hend : midT endT = true) (st : FState)
+    (hend : midT endT = true) (st : FState) (hst : S token)
     (hi : Inv EL S st.p) (hn : mu st.p ≤ N) (hf : 8 * mu st.p + 19 ≤ fuel + 1) :
     FSafe AP EL S (parseSwitch pf ef (fuel + 1) token endT) st (SwPost EL S st) := by
   unfold FileParser.parseSwitch
@@ -572,12 +595,12 @@ theorem parseSwitch_ok {fuel : Nat} (ih : FileSpecs AP EL S pf ef N fuel) (token
   apply FSafe.bind
   apply fexpect_safe hz hi1 (by decide)
   intro rd st2 hi2 _ _ _ hm2 _
-  apply (ih.switchLoop _ _ _ _ st2 hend casesOK_nil hi2 (by omega) (by omega)).mono
+  apply (ih.switchLoop _ _ _ _ st2 hend ⟨casesOK_nil, NPL_nil, posOK_of hst, hm1.2⟩ hi2 (by omega) (by omega)).mono
   intro r st3 ⟨c, a, b⟩
   exact ⟨c, a, by omega⟩
 
 theorem switchLoop_ok {fuel : Nat} (ih : FileSpecs AP EL S pf ef N fuel) (pos : Nat) (value : Expr) (endT : ItemType)
-    (cases : NodeList) (st : FState) (hend : midT endT = true) (hcs : casesOK cases)
+    (cases : NodeList) (st : FState) (hend : midT endT = true) (hcs : casesOK cases ∧ NPL S cases ∧ PosOK S pos ∧ EP S value)
     (hi : Inv EL S st.p) (hn : mu st.p ≤ N) (hf : 8 * mu st.p + 20 ≤ fuel + 1) :
     FSafe AP EL S (switchLoop pf ef (fuel + 1) pos value endT cases) st (SwPost EL S st) := by
   unfold FileParser.switchLoop
@@ -604,11 +627,12 @@ theorem switchLoop_ok {fuel : Nat} (ih : FileSpecs AP EL S pf ef N fuel) (pos : 
       · exact real_of_beq h (by decide)
       · exact real_of_beq h (by decide)
     apply FSafe.bind
-    apply (ih.caseLoop tok [] st1 (upw% hi1) (by omega) (by omega)).mono
-    intro c st2 ⟨hc2, hi2, hm2⟩
+    apply (ih.caseLoop tok [] st1 ⟨hs1, EPl_nil⟩ (upw% hi1) (by omega) (by omega)).mono
+    intro c st2 ⟨⟨hc2, hnc2⟩, hi2, hm2⟩
     obtain ⟨cp, cvs, cb, rfl, hcb⟩ := hc2
     apply (ih.switchLoop _ _ _ _ st2 hend
-      (casesOK_append _ _ _ rfl hcs (show casesOK (.cons (.switchCase cp cvs cb) .nil) from ⟨hcb, trivial⟩))
+      ⟨casesOK_append _ _ _ rfl hcs.1 (show casesOK (.cons (.switchCase cp cvs cb) .nil) from ⟨hcb, trivial⟩),
+       NPL_append _ _ hcs.2.1 (by simp only [NPL]; exact ⟨hnc2, trivial⟩), hcs.2.2⟩
       hi2 (by omega) (by omega)).mono
     intro r st3 ⟨c, a, b⟩
     exact ⟨c, a, by omega⟩
@@ -617,7 +641,7 @@ theorem switchLoop_ok {fuel : Nat} (ih : FileSpecs AP EL S pf ef N fuel) (pos : 
     apply FSafe.bind
     apply fexpect_safe hz (upw% hi1) (by decide)
     intro rd st2 hi2 _ _ _ hm2 _
-    exact FSafe.pure ⟨⟨_, _, _, rfl, hcs⟩, hi2, by omega⟩
+    exact FSafe.pure ⟨⟨⟨_, _, _, rfl, hcs.1⟩, by simp only [NP]; exact ⟨hcs.2.2.1, hcs.2.2.2, hcs.2.1⟩⟩, hi2, by omega⟩
   split
   · rename_i hc; have hr := real_of_beq hc (by decide)
     apply (ih.switchLoop _ _ _ _ st1 hend hcs (upw% hi1) (by omega) (by omega)).mono
@@ -626,40 +650,40 @@ theorem switchLoop_ok {fuel : Nat} (ih : FileSpecs AP EL S pf ef N fuel) (pos : 
   · exact funexpected_safe hi1 hs1
 
 theorem caseLoop_ok {fuel : Nat} (ih : FileSpecs AP EL S pf ef N fuel) (token : Item) (values : List Expr)
-    (st : FState) (hi : Inv EL S st.p) (hn : mu st.p ≤ N) (hf : 8 * mu st.p + 20 ≤ fuel + 1) :
+    (st : FState) (hpre : S token ∧ EPl S values) (hi : Inv EL S st.p) (hn : mu st.p ≤ N) (hf : 8 * mu st.p + 20 ≤ fuel + 1) :
     FSafe AP EL S (caseLoop pf ef (fuel + 1) token values) st (CasePost EL S st) := by
   unfold FileParser.caseLoop
   apply FSafe.bind
-  apply FSafe.mono (Q := fun _ st' => Inv EL S st'.p ∧ mu st'.p ≤ mu st.p)
+  apply FSafe.mono (Q := fun vs st' => Inv EL S st'.p ∧ mu st'.p ≤ mu st.p ∧ EPl S vs)
   · split
     · apply FSafe.bind
       apply parseExpr0_safe hz pf ef N hN hwf hi hn
       intro e st1 hi1 hm1
-      exact FSafe.pure ⟨hi1, by omega⟩
-    · exact FSafe.pure ⟨hi, Nat.le_refl _⟩
-  · intro vs st1 ⟨hi1, hm1⟩
+      exact FSafe.pure ⟨hi1, by omega, EPl_append hpre.2 (EPl_single hm1.2)⟩
+    · exact FSafe.pure ⟨hi, Nat.le_refl _, hpre.2⟩
+  · intro vs st1 ⟨hi1, hm1, hvs⟩
     apply FSafe.bind
     apply fnext_safe hz hi1
     intro tok st2 hi2 hs2 _ _ hm2 _
     split
     · rename_i hc; have hr := real_of_beq hc (by decide)
-      apply (ih.caseLoop _ _ st2 (upw% hi2) (by omega) (by omega)).mono
+      apply (ih.caseLoop _ _ st2 ⟨hpre.1, hvs⟩ (upw% hi2) (by omega) (by omega)).mono
       intro r st3 ⟨c, a, b⟩
       exact ⟨c, a, by omega⟩
     split
     · rename_i hc; have hr := real_of_beq hc (by decide)
       apply FSafe.bind
-      apply (ih.itemListLoop _ _ _ st2 childrenOK_nil (upw% hi2) (by omega) (by omega)).mono
-      intro body st3 ⟨hlst3, hi3, hpc3, hm3, hu3⟩
+      apply (ih.itemListLoop _ _ _ st2 ⟨childrenOK_nil, NPL_nil, fun p h => by cases h⟩ (upw% hi2) (by omega) (by omega)).mono
+      intro body st3 ⟨⟨hlst3, hnp3⟩, hi3, hpc3, hm3, hu3⟩
       apply FSafe.bind
       apply fbackup_safe hi3 hpc3
       intro st4 hi4 hm4 _
-      exact FSafe.pure ⟨⟨_, _, _, rfl, hlst3⟩, hi4, by omega⟩
+      exact FSafe.pure ⟨⟨⟨_, _, _, rfl, hlst3⟩, by simp only [NP]; exact ⟨posOK_of hpre.1, hvs, hnp3⟩⟩, hi4, by omega⟩
     · exact funexpected_safe hi2 hs2
 
 
 theorem parseCall_ok {fuel : Nat} (ih : FileSpecs AP EL S pf ef N fuel) (token : Item) (st : FState)
-    (hi : Inv EL S st.p) (hn : mu st.p ≤ N) (hf : 8 * mu st.p + 20 ≤ fuel + 1) :
+    (hst : S token) (hi : Inv EL S st.p) (hn : mu st.p ≤ N) (hf : 8 * mu st.p + 20 ≤ fuel + 1) :
     FSafe AP EL S (parseCall pf ef (fuel + 1) token) st (NPost EL S st) := by
   unfold FileParser.parseCall
   apply FSafe.bind
@@ -671,12 +695,12 @@ theorem parseCall_ok {fuel : Nat} (ih : FileSpecs AP EL S pf ef N fuel) (token :
   apply fnext_safe hz hi1
   intro tok st2 hi2 hs2 _ _ hm2 _
   split
-  · exact FSafe.pure ⟨trivial, (upw% hi2), by omega⟩
+  · exact FSafe.pure ⟨⟨trivial, by np⟩, (upw% hi2), by omega⟩
   split
   · rename_i hc; have hr := real_of_beq hc (by decide)
     apply FSafe.bind
-    apply (ih.callParamsLoop _ st2 (upw% hi2) (by omega) (by omega)).mono
-    intro body st3 ⟨hi3, hm3⟩
+    apply (ih.callParamsLoop _ st2 NPL_nil (upw% hi2) (by omega) (by omega)).mono
+    intro body st3 ⟨hi3, hm3, hb3⟩
     apply FSafe.bind
     apply fexpect_safe hz hi3 (by decide)
     intro a st4 hi4 _ _ _ hm4 _
@@ -686,7 +710,7 @@ theorem parseCall_ok {fuel : Nat} (ih : FileSpecs AP EL S pf ef N fuel) (token :
     apply FSafe.bind
     apply fexpect_safe hz hi5 (by decide)
     intro c st6 hi6 _ _ _ hm6 _
-    exact FSafe.pure ⟨trivial, hi6, by omega⟩
+    exact FSafe.pure ⟨⟨trivial, by np⟩, hi6, by omega⟩
   · exact funexpected_safe hi2 hs2
 
 theorem orphanLoop_ok {fuel : Nat} (ih : FileSpecs AP EL S pf ef N fuel) (initial : Item) (st : FState)
@@ -711,8 +735,8 @@ theorem orphanLoop_ok {fuel : Nat} (ih : FileSpecs AP EL S pf ef N fuel) (initia
   · exact FSafe.pure ⟨hs, hi, hpc, htop, Nat.le_refl _⟩
 
 theorem callParamsLoop_ok {fuel : Nat} (ih : FileSpecs AP EL S pf ef N fuel) (params : NodeList) (st : FState)
-    (hi : Inv EL S st.p) (hn : mu st.p ≤ N) (hf : 8 * mu st.p + 20 ≤ fuel + 1) :
-    FSafe AP EL S (callParamsLoop pf ef (fuel + 1) params) st (FPost EL S st) := by
+    (hpar : NPL S params) (hi : Inv EL S st.p) (hn : mu st.p ≤ N) (hf : 8 * mu st.p + 20 ≤ fuel + 1) :
+    FSafe AP EL S (callParamsLoop pf ef (fuel + 1) params) st (PPost EL S st) := by
   unfold FileParser.callParamsLoop
   apply FSafe.bind
   apply nextNonComment_safe hz fuel st _ hi (by omega)
@@ -733,7 +757,7 @@ theorem callParamsLoop_ok {fuel : Nat} (ih : FileSpecs AP EL S pf ef N fuel) (pa
       apply fbackup2_safe hi3 hs2 (by rw [hc']; decide) (fun _ => real_valid hr) (by omega)
       intro st4 hi4 hm4 _
       rw [ht3] at hm4
-      exact FSafe.pure ⟨hi4, by omega⟩
+      exact FSafe.pure ⟨hi4, by omega, hpar⟩
     split
     · exact ferrorf_safe hi3
     · rename_i hp
@@ -753,19 +777,19 @@ theorem callParamsLoop_ok {fuel : Nat} (ih : FileSpecs AP EL S pf ef N fuel) (pa
         apply FSafe.bind
         apply fexpect_safe hz hi6 (by decide)
         intro rd st7 hi7 _ _ _ hm7 _
-        apply (ih.callParamsLoop _ st7 hi7 (by omega) (by omega)).mono
-        intro r st8 ⟨a, b⟩
-        exact ⟨a, by omega⟩
+        apply (ih.callParamsLoop _ st7 (NPL_append _ _ hpar (by simp only [NPL, NP]; exact ⟨⟨posOK_of hs2, hm6.2⟩, trivial⟩)) hi7 (by omega) (by omega)).mono
+        intro r st8 ⟨a, b, c⟩
+        exact ⟨a, by omega, c⟩
       split
       · apply FSafe.bind
-        apply (ih.itemListLoop _ _ _ st5 childrenOK_nil (upw% hi5) (by omega) (by omega)).mono
-        intro value st6 ⟨hlst6, hi6, _, hm6, hu6⟩
+        apply (ih.itemListLoop _ _ _ st5 ⟨childrenOK_nil, NPL_nil, fun p h => by cases h⟩ (upw% hi5) (by omega) (by omega)).mono
+        intro value st6 ⟨⟨hlst6, hnp6⟩, hi6, _, hm6, hu6⟩
         apply FSafe.bind
         apply fexpect_safe hz (upw% hi6) (by decide)
         intro rd st7 hi7 _ _ _ hm7 _
-        apply (ih.callParamsLoop _ st7 hi7 (by omega) (by omega)).mono
-        intro r st8 ⟨a, b⟩
-        exact ⟨a, by omega⟩
+        apply (ih.callParamsLoop _ st7 (NPL_append _ _ hpar (by simp only [NPL, NP]; exact ⟨⟨posOK_of hs2, hnp6⟩, trivial⟩)) hi7 (by omega) (by omega)).mono
+        intro r st8 ⟨a, b, c⟩
+        exact ⟨a, by omega, c⟩
       · apply FSafe.bind
         apply FSafe.mono (Q := fun _ st' => Inv EL S st'.p ∧ mu st'.p + 2 ≤ mu st.p)
         · split
@@ -802,26 +826,26 @@ theorem callParamsLoop_ok {fuel : Nat} (ih : FileSpecs AP EL S pf ef N fuel) (pa
               apply fexpect_safe hz hi7 (by decide)
               intro rd st9 hi9 _ _ _ hm9 _
               apply FSafe.bind
-              apply (ih.itemListLoop _ _ _ st9 childrenOK_nil hi9 (by omega) (by omega)).mono
-              intro value st10 ⟨hlst10, hi10, _, hm10, hu10⟩
+              apply (ih.itemListLoop _ _ _ st9 ⟨childrenOK_nil, NPL_nil, fun p h => by cases h⟩ hi9 (by omega) (by omega)).mono
+              intro value st10 ⟨⟨hlst10, hnp10⟩, hi10, _, hm10, hu10⟩
               apply FSafe.bind
               apply fexpect_safe hz (upw% hi10) (by decide)
               intro rd2 st11 hi11 _ _ _ hm11 _
-              apply (ih.callParamsLoop _ st11 hi11 (by omega) (by omega)).mono
-              intro r st12 ⟨a, b⟩
-              exact ⟨a, by omega⟩
+              apply (ih.callParamsLoop _ st11 (NPL_append _ _ hpar (by simp only [NPL, NP]; exact ⟨⟨posOK_of hs2, hnp10⟩, trivial⟩)) hi11 (by omega) (by omega)).mono
+              intro r st12 ⟨a, b, c⟩
+              exact ⟨a, by omega, c⟩
             · apply FSafe.bind
               apply parseQuotedExpr_safe hz pf hlex hi7
               intro value hpv
               apply FSafe.bind
               apply fexpect_safe hz hi7 (by decide)
               intro rd st9 hi9 _ _ _ hm9 _
-              apply (ih.callParamsLoop _ st9 hi9 (by omega) (by omega)).mono
-              intro r st10 ⟨a, b⟩
-              exact ⟨a, by omega⟩
+              apply (ih.callParamsLoop _ st9 (NPL_append _ _ hpar (by simp only [NPL, NP]; exact ⟨⟨posOK_of hs2, hpv⟩, trivial⟩)) hi9 (by omega) (by omega)).mono
+              intro r st10 ⟨a, b, c⟩
+              exact ⟨a, by omega, c⟩
 
 theorem parseMsg_ok {fuel : Nat} (ih : FileSpecs AP EL S pf ef N fuel) (token : Item) (st : FState)
-    (hi : Inv EL S st.p) (hn : mu st.p ≤ N) (hf : 8 * mu st.p + 20 ≤ fuel + 1) :
+    (hst : S token) (hi : Inv EL S st.p) (hn : mu st.p ≤ N) (hf : 8 * mu st.p + 20 ≤ fuel + 1) :
     FSafe AP EL S (parseMsg pf ef (fuel + 1) token) st (NPost EL S st) := by
   unfold FileParser.parseMsg
   apply FSafe.bind
@@ -836,7 +860,7 @@ theorem parseMsg_ok {fuel : Nat} (ih : FileSpecs AP EL S pf ef N fuel) (token : 
     apply FSafe.bind
     apply fmodify_safe
     apply FSafe.bind
-    apply (ih.itemListLoop _ _ _ _ childrenOK_nil (by exact hi2) (by show mu st2.p ≤ N; omega) (by show 8 * mu st2.p + 20 ≤ fuel; omega)).mono
+    apply (ih.itemListLoop _ _ _ _ ⟨childrenOK_nil, NPL_nil, fun p h => by cases h⟩ (by exact hi2) (by show mu st2.p ≤ N; omega) (by show 8 * mu st2.p + 20 ≤ fuel; omega)).mono
     intro contents st3 ⟨hl3, hi3, _, hm3⟩
     have hm3' : mu st3.p ≤ mu st2.p := by
       have : mu st3.p + real (top st3.p) ≤ mu st2.p := hm3.1
@@ -848,17 +872,19 @@ theorem parseMsg_ok {fuel : Nat} (ih : FileSpecs AP EL S pf ef N fuel) (token : 
     have hmm : mu st3'.p = mu st3.p := by subst hst; rfl
     split
     · rename_i hnone
-      have := placeholderize_isSome hl3
+      have := placeholderize_isSome hl3.1
       rw [hnone] at this
       simp at this
-    · simp only
+    · rename_i body hbody
+      have hnb : NP S body := NP_placeholderize _ _ hbody hl3.2
+      simp only
       repeat' split
       all_goals first
         | exact ferrorf_safe hi3'
         | (apply FSafe.bind
            apply fexpect_safe hz hi3' (by decide)
            intro rd2 st4 hi4 _ _ _ hm4 _
-           exact FSafe.pure ⟨trivial, hi4, by omega⟩)
+           exact FSafe.pure ⟨⟨trivial, by np⟩, hi4, by omega⟩)
 
 theorem parsePlural_ok {fuel : Nat} (ih : FileSpecs AP EL S pf ef N fuel) (tok : Item) (st : FState)
     (hs : S tok) (hv : EL.lex → valid tok) (hi : Inv EL S st.p) (hn : mu st.p ≤ N) (hf : 8 * mu st.p + 20 ≤ fuel + 1) :
@@ -869,21 +895,24 @@ theorem parsePlural_ok {fuel : Nat} (ih : FileSpecs AP EL S pf ef N fuel) (tok :
   split
   · exact funexpected_safe' hs hv
   · apply FSafe.bind
-    apply (ih.parseSwitch tok _ st (by decide) hi hn (by omega)).mono
-    intro sw st1 ⟨hsw, hi1, hm1⟩
+    apply (ih.parseSwitch tok _ st (by decide) hs hi hn (by omega)).mono
+    intro sw st1 ⟨⟨hsw, hnsw⟩, hi1, hm1⟩
     obtain ⟨sp, sv, scs, rfl, hscs⟩ := hsw
+    simp only [NP] at hnsw
     simp only
     apply FSafe.bind
-    apply pluralCases_safe _ _ _ _ st1 _ rfl hscs pcasesOK_nil (fun _ h => by simp at h) hi1
+    apply pluralCases_safe _ _ _ _ st1 _ rfl ⟨hscs, hnsw.2.2⟩ ⟨pcasesOK_nil, NPL_nil⟩ (fun _ h => by simp at h) hi1
     intro r hpcs hd
     obtain ⟨pcs, dflt⟩ := r
     simp only
     split
     · exact ferrorf_safe hi1
     · rename_i _ d
-      refine FSafe.pure ⟨?_, hi1, hm1⟩
-      show (phCases pcs).isSome = true ∧ (placeholderize d).isSome = true
-      exact ⟨phCases_isSome _ pcs rfl hpcs, placeholderize_isSome (hd d rfl)⟩
+      refine FSafe.pure ⟨⟨?_, ?_⟩, hi1, hm1⟩
+      · show (phCases pcs).isSome = true ∧ (placeholderize d).isSome = true
+        exact ⟨phCases_isSome _ pcs rfl hpcs.1, placeholderize_isSome (hd d rfl).1⟩
+      · simp only [NP]
+        exact ⟨hnsw.1, hnsw.2.1, hpcs.2, (hd d rfl).2⟩
 
 /-- every block parser meets its specification at every fuel level -/
 theorem fileSpecs_all : ∀ fuel, FileSpecs AP EL S pf ef N fuel := by
@@ -891,20 +920,20 @@ theorem fileSpecs_all : ∀ fuel, FileSpecs AP EL S pf ef N fuel := by
   induction fuel with
   | zero =>
     exact {
-      itemListLoop := fun _ _ _ _ _ _ h => by omega
+      itemListLoop := fun _ _ _ _ _ _ _ h => by omega
       textOrTag := fun _ _ _ _ _ _ _ _ h => by omega
       beginTag := fun _ _ _ h => by omega
-      parseTemplate := fun _ _ _ _ h => by omega
-      parseLet := fun _ _ _ _ h => by omega
-      ifLoop := fun _ _ _ _ _ _ h => by omega
-      parseFor := fun _ _ _ _ h => by omega
-      parseSwitch := fun _ _ _ _ _ _ h => by omega
+      parseTemplate := fun _ _ _ _ _ h => by omega
+      parseLet := fun _ _ _ _ _ h => by omega
+      ifLoop := fun _ _ _ _ _ _ _ h => by omega
+      parseFor := fun _ _ _ _ _ h => by omega
+      parseSwitch := fun _ _ _ _ _ _ _ h => by omega
       switchLoop := fun _ _ _ _ _ _ _ _ h => by omega
-      caseLoop := fun _ _ _ _ _ h => by omega
-      parseCall := fun _ _ _ _ h => by omega
-      callParamsLoop := fun _ _ _ _ h => by omega
+      caseLoop := fun _ _ _ _ _ _ h => by omega
+      parseCall := fun _ _ _ _ _ h => by omega
+      callParamsLoop := fun _ _ _ _ _ h => by omega
       orphanLoop := fun _ _ _ _ _ _ h => by omega
-      parseMsg := fun _ _ _ _ h => by omega
+      parseMsg := fun _ _ _ _ _ h => by omega
       parsePlural := fun _ _ _ _ _ _ h => by omega }
   | succ f ih =>
     exact {
